@@ -11,6 +11,7 @@ import Mahotas.Proofs.C10Graham
 import Mahotas.Proofs.C10Thin
 import Mahotas.Proofs.C10Cw
 import Mahotas.Proofs.C10Line
+import Mahotas.Proofs.C10Surf
 open Mahotas Mahotas.C10
 
 /-! ## general index arithmetic -/
@@ -745,3 +746,165 @@ example : C10Misc.neighbours [3, 3] [false, true, false, true, true, true, false
       [[-1, 0], [1, -1], [0, 2], [1, -1]] 50).1.all C10Misc.PAcc.ok) = false ∧
     C10Misc.neighbours [3, 3] [false, false, false, false, true, false, false, false, false] = [] ∧
     C10Misc.allOk (C10Misc.neighboursDelta []).1 = false := by decide
+/-! ## Round 3 — B9 SURF -/
+
+section SurfB9
+open Mahotas.C10Surf
+
+/-- **B9, `sum_rect` — exact characterisation.** For ALL integers `y0, x0, y1, x1` and all sizes `N0, N1` (any sign),
+the four reads `integral.at(y0',x0')`, `at(y0',x1')`, `at(y1',x0')`, `at(y1',x1')` behind the clamps
+`y0' = max(y0-1,0)`, `x0' = max(x0-1,0)`, `y1' = min(y1-1,N0-1)`, `x1' = min(x1-1,N1-1)` are all inside the `N0 x N1`
+integral image IF AND ONLY IF the image is not empty (`N0, N1 ≥ 1`), the window does not begin beyond the image
+(`y0 ≤ N0`, `x0 ≤ N1`) and does not end before it (`y1 ≥ 1`, `x1 ≥ 1`). The clamps are one-sided: `sum_rect` is NOT safe
+for arbitrary arguments (`y1 ≤ 0` reads row `y1-1 < 0`, `y0 > N0` reads row `y0-1 ≥ N0`); for an empty image every call
+reads out of bounds (`at(0,·)` of zero rows). -/
+theorem C10_surf_sum_rect_in_bounds_iff (n0 n1 y0 x0 y1 x1 : Int) :
+    sAllOk (sumRectAccesses n0 n1 y0 x0 y1 x1) = true ↔
+      1 ≤ n0 ∧ 1 ≤ n1 ∧ y0 ≤ n0 ∧ x0 ≤ n1 ∧ 1 ≤ y1 ∧ 1 ≤ x1 := by
+  rw [sAllOk_iff]; exact sumRect_ok_iff n0 n1 y0 x0 y1 x1
+
+example : sAllOk (sumRectAccesses 40 40 (-5) 3 7 50) = true ∧ (sumRectAccesses 40 40 (-5) 3 7 50).length = 8 ∧
+    sAllOk (sumRectAccesses 40 40 100 0 200 5) = false ∧ sAllOk (sumRectAccesses 40 40 (-5) 0 0 5) = false ∧
+    sAllOk (sumRectAccesses 0 4 0 0 1 1) = false := by decide
+
+/-- **B9, `sum_rect` as the entry point `_surf.sum_rect` runs it** (four arbitrary C `int`s, image sizes below 2^31; the
+decrement `v-1` wraps at `INT_MIN` as compiled with `-fno-strict-overflow`): in bounds iff the image is not empty,
+`y0 ≤ N0`, `x0 ≤ N1` and neither is `INT_MIN` (whose decrement is `INT_MAX`), and `y1 ≥ 1`, `x1 ≥ 1` (or `INT_MIN`,
+which the upper clamp then maps to the last row/column). -/
+theorem C10_surf_sum_rect_entry_iff (n0 n1 y0 x0 y1 x1 : Int)
+    (hn0 : n0 ≤ 2147483647) (hn1 : n1 ≤ 2147483647)
+    (hy0 : -2147483648 ≤ y0 ∧ y0 ≤ 2147483647) (hx0 : -2147483648 ≤ x0 ∧ x0 ≤ 2147483647)
+    (hy1 : -2147483648 ≤ y1 ∧ y1 ≤ 2147483647) (hx1 : -2147483648 ≤ x1 ∧ x1 ≤ 2147483647) :
+    sAllOk (sumRectEntry n0 n1 y0 x0 y1 x1) = true ↔
+      1 ≤ n0 ∧ 1 ≤ n1 ∧ (y0 ≤ n0 ∧ y0 ≠ -2147483648) ∧ (x0 ≤ n1 ∧ x0 ≠ -2147483648) ∧
+      (1 ≤ y1 ∨ y1 = -2147483648) ∧ (1 ≤ x1 ∨ x1 = -2147483648) := by
+  rw [sAllOk_iff]; exact sumRectEntry_ok_iff n0 n1 y0 x0 y1 x1 hn0 hn1 hy0 hx0 hy1 hx1
+
+example : sAllOk (sumRectEntry 5 5 (-2147483648) 0 3 3) = false ∧ sAllOk (sumRectEntry 5 5 0 0 (-2147483648) 3) = true ∧
+    sAllOk (sumRectEntry 5 5 2 2 4 4) = true := by decide
+
+/-- **B9, `csum_rect`.** For all integers: `csum_rect(integral, y, x, dy, dx, h, w)` (`y0 = y+dy-h/2`, `x0 = x+dx-w/2` with C
+division, `y1 = y0+h`, `x1 = x0+w`) reads inside the image iff the image is not empty, `y0 ≤ N0`, `x0 ≤ N1`, `y1 ≥ 1`, `x1 ≥ 1`. -/
+theorem C10_surf_csum_rect_in_bounds_iff (n0 n1 y x dy dx h w : Int) :
+    sAllOk (csumRectAccesses n0 n1 y x dy dx h w) = true ↔
+      1 ≤ n0 ∧ 1 ≤ n1 ∧ y + dy - Int.tdiv h 2 ≤ n0 ∧ x + dx - Int.tdiv w 2 ≤ n1 ∧
+      1 ≤ y + dy - Int.tdiv h 2 + h ∧ 1 ≤ x + dx - Int.tdiv w 2 + w := by
+  rw [sAllOk_iff]; exact csumRect_ok_iff n0 n1 y x dy dx h w
+
+example : sAllOk (csumRectAccesses 9 9 4 4 (-2) 2 3 3) = true ∧ sAllOk (csumRectAccesses 9 9 0 4 (-2) 2 1 3) = false := by decide
+
+/-- **B9, `build_pyramid`.** For every image size `N0, N1` (any integers, also smaller than the filters), every number of
+octaves and intervals and every `initial_step_size ≥ 1` (the guard of `check_pyramid_parameters`, fix d1a663a): every
+access of the fill loops — `pyramid[o]` with `o < nr_octaves`; the 32 reads of the eight `csum_rect` windows (Dxx, Dyy, Dxy
+lobes) at every sample `(y, x)`, `y = border, border+step, … < N0-border`; the write
+`pyramid[o].at(i, y/step_size, x/step_size)` into the array of shape `(nr_intervals, N0/step_size, N1/step_size)` — is in
+bounds, and every `y += step_size` loop terminates (`step_size ≥ 1`). The `csum_rect` windows may stick out of the image
+(the clamps of `sum_rect` take care of that); what makes them safe is `2 ≤ y ≤ N0-1` (window neither before nor beyond the
+image, see `C10_surf_sum_rect_in_bounds_iff`), which holds as `border ≥ 8·step`. The write needs `border ≥ step`
+(`y < N0 - border` gives `y/step < N0/step` although `N0/step` rounds down). Arithmetic is over ℤ here; that the C `int`s
+do not overflow is `C10_surf_pyramid_no_int_overflow`. -/
+theorem C10_surf_pyramid_in_bounds (n0 n1 noct nint init : Int) (hi : 1 ≤ init) :
+    sAllOk (pyramidAccesses n0 n1 noct nint init) = true ∧ pyramidDone noct init = true :=
+  ⟨(sAllOk_iff _).2 (pyramidAccesses_ok n0 n1 noct nint init hi), pyramidDone_ok noct init hi⟩
+
+example : (pyramidAccesses 20 21 1 1 1).length = 1341 ∧ sAllOk (pyramidAccesses 20 21 1 1 1) = true ∧
+    pyramidDone 1 0 = false := by decide +kernel
+
+/-- **B9, `build_pyramid`: the guard and the allocation.** When `check_pyramid_parameters` accepts (`0 < nr_octaves ≤ 30`,
+`nr_intervals > 0`, `initial_step_size > 0`, `max_step*max_border < INT_MAX`) and the image has `N0, N1 ≥ 0`: all accesses are in
+bounds, the loops terminate, and `pyramid[o]` is allocated with shape `(nr_intervals ≥ 1, N0/step ≥ 0, N1/step ≥ 0)` (a plane
+may be empty when the image is smaller than the step: then nothing is written to it). -/
+theorem C10_surf_pyramid_guarded (n0 n1 noct nint init : Int) (o : Nat) (h0 : 0 ≤ n0) (h1 : 0 ≤ n1)
+    (hg : checkPyramidParameters noct nint init = true) :
+    sAllOk (pyramidAccesses n0 n1 noct nint init) = true ∧ pyramidDone noct init = true ∧
+    1 ≤ (pyramidDims n0 n1 nint init o).1 ∧ 0 ≤ (pyramidDims n0 n1 nint init o).2.1 ∧
+    0 ≤ (pyramidDims n0 n1 nint init o).2.2 := by
+  have hg' := hg
+  simp only [checkPyramidParameters, Bool.and_eq_true, decide_eq_true_eq] at hg'
+  obtain ⟨⟨⟨⟨_, _⟩, hn⟩, hin⟩, _⟩ := hg'
+  have hs : 1 ≤ stepSize init o := by unfold stepSize; have := pow2_pos o; nlinarith
+  refine ⟨(C10_surf_pyramid_in_bounds n0 n1 noct nint init (by omega)).1, pyramidDone_ok noct init (by omega), ?_, ?_, ?_⟩
+  · simp only [pyramidDims]; omega
+  · simp only [pyramidDims]; rw [Int.tdiv_eq_ediv_of_nonneg h0]; exact Int.ediv_nonneg h0 (by omega)
+  · simp only [pyramidDims]; rw [Int.tdiv_eq_ediv_of_nonneg h1]; exact Int.ediv_nonneg h1 (by omega)
+
+example : checkPyramidParameters 4 6 1 = true ∧ checkPyramidParameters 31 6 1 = false ∧ checkPyramidParameters 4 0 1 = false ∧
+    checkPyramidParameters 4 6 0 = false ∧ checkPyramidParameters 30 6 1 = false ∧ checkPyramidParameters 1 700000000 1 = true := by
+  decide +kernel
+
+/-- **B9, `build_pyramid`: no `int` overflow.** Under `check_pyramid_parameters`, for every octave `o < nr_octaves` and interval
+`0 ≤ i < nr_intervals`, the C `int`s computed from the parameters alone — `step_size = initial_step_size*2^o`,
+`get_border_size(o, nr_intervals)`, `border_size = get_border_size*step_size`, `lobe_size = 2^(o+1)*(i+1)+1`,
+`lobe_offset = lobe_size/2+1` — lie in `[1, INT_MAX]`: the computation over ℤ of `C10_surf_pyramid_in_bounds` is the
+computation of the machine. (The window sizes `3*lobe_size`, `2*lobe_size-1` are evaluated only inside the `y` loop, where
+`3*lobe_size ≤ 2*border < N0`; that last step is not formalised: see the report.) -/
+theorem C10_surf_pyramid_no_int_overflow (noct nint init : Int) (o : Nat) (i : Int)
+    (hg : checkPyramidParameters noct nint init = true) (ho : (o : Int) < noct) (hi : 0 ≤ i ∧ i < nint) :
+    ∀ v ∈ pyramidInts nint init o i, 1 ≤ v ∧ v ≤ 2147483647 :=
+  pyramidInts_range noct nint init o i hg ho hi
+
+example : pyramidInts 6 1 3 5 = [8, 170, 1360, 97, 49] := by decide
+
+/-- **B9, `get_interest_points`.** For every plane count `nr_intervals`, every plane size `nr x nc` (any integers) and every
+border `get_border_size ≥ 0`: all reads of one octave — the scan `for (i = 1; i < nr_intervals-1; i += 3) for (r = border+1;
+r < nr-border-1; r += 3) for (c …)`, the block `ii < min(i+3, nr_intervals-1)`, `rr < min(r+3, nr-border-1)`, `cc < …`, and, for
+EVERY element of the block as candidate maximum (the float comparisons are not modelled: a superset of any run),
+`is_maximum_in_region` (27 neighbours `(i-1..i+1, r-1..r+1, c-1..c+1)` behind `i <= 0 || i+1 >= nr_intervals`) and
+`interpolate_point` (27 reads at offsets in `{-1,0,1}³`) — are inside the `nr_intervals x nr x nc` array. The border the code
+uses is non-negative (`≥ 8`) whenever `nr_intervals ≥ 1`. -/
+theorem C10_surf_interest_points_in_bounds (nint nr nc bs : Int) (hbs : 0 ≤ bs) :
+    sAllOk (ipScanAccesses nint nr nc bs) = true ∧ ∀ o : Nat, 1 ≤ nint → 8 ≤ borderSize o nint :=
+  ⟨(sAllOk_iff _).2 (ipScan_ok nint nr nc bs hbs), fun o h => borderSize_ge o nint h⟩
+
+example : (ipScanAccesses 3 3 3 0).length = 171 ∧ sAllOk (ipScanAccesses 3 3 3 0) = true ∧
+    sAllOk (ipScanAccesses 3 3 3 (-1)) = false := by decide +kernel
+
+/-- **B9, gradient samples (`haar_x`, `haar_y`) — exact characterisation.** For all integers `y, x, w`: the 16 reads of
+`haar_x(integral, y, x, w)` and `haar_y(integral, y, x, w)` are inside the image iff `1 ≤ y ≤ N0`, `1 ≤ x ≤ N1` and the window
+`[y - w/2, y - w/2 + w)` / `[x - w/2, …)` neither begins beyond nor ends before the image (automatic for `w ≥ 0`). In particular a
+sample position with `y = 0` or `x = 0` (row/column 0 of the image!) reads `integral.at(-1, ·)`. -/
+theorem C10_surf_haar_in_bounds_iff (n0 n1 y x w : Int) :
+    sAllOk (haarAccesses n0 n1 y x w) = true ↔
+      1 ≤ y ∧ y ≤ n0 ∧ 1 ≤ x ∧ x ≤ n1 ∧
+      y - Int.tdiv w 2 ≤ n0 ∧ 1 ≤ y - Int.tdiv w 2 + w ∧ x - Int.tdiv w 2 ≤ n1 ∧ 1 ≤ x - Int.tdiv w 2 + w := by
+  rw [sAllOk_iff]; exact haar_ok_iff n0 n1 y x w
+
+/-- **B9, descriptor / orientation sampling windows, under an explicit hypothesis.** The sample positions of
+`compute_dominant_angle` (`round(scale*r + center.y)`, …) and `compute_surf_descriptor` (`int(p.y())`, `int(p.x())` of the
+rotated grid) and the window sizes (`(~1)&int(4*scale+.5)`, `int(2*scale+.5)`) are float-derived; here they are ARBITRARY
+integers subject to: every position satisfies `1 ≤ y ≤ N0`, `1 ≤ x ≤ N1`, and `w ≥ 0` (true for every `scale ≥ 0`). Then all
+reads of all samples are in bounds. The hypothesis on the positions is NOT implied by the border test of
+`compute_descriptors` for small scales (`C10_surf_descriptor_guard_insufficient`); the detector itself only produces
+`scale > 1.6`, for which `15.5*scale - 1 ≥ 14.15*scale + 1` keeps the rotated 20x20 grid at rows/columns ≥ 1 (paper argument,
+not formalised). -/
+theorem C10_surf_descriptor_windows_in_bounds (n0 n1 : Int) (pts : List (Int × Int)) (w : Int) (hw : 0 ≤ w)
+    (hp : ∀ p ∈ pts, (1 ≤ p.1 ∧ p.1 ≤ n0) ∧ (1 ≤ p.2 ∧ p.2 ≤ n1)) :
+    sAllOk (descWindowAccesses n0 n1 pts w) = true :=
+  (sAllOk_iff _).2 (descWindow_ok n0 n1 pts w hw hp)
+
+example : sAllOk (descWindowAccesses 9 9 [(1, 1), (9, 9), (4, 5)] 4) = true ∧
+    (descWindowAccesses 9 9 [(1, 1), (9, 9), (4, 5)] 4).length = 96 ∧
+    sAllOk (haarAccesses 9 9 0 3 2) = false ∧ sAllOk (haarAccesses 9 9 3 0 0) = false := by decide
+
+/-- **B9, the descriptor vector.** The 16 cells of `for (r = -10; r < 10; r += 5) for (c = -10; c < 10; c += 5)` write
+`des[count++]` four times each: exactly the indices `0 … 63` of `double des[64]`; `compute_dominant_angle` takes 109 samples
+(so `samples[0]` exists). -/
+theorem C10_surf_descriptor_index_in_bounds :
+    sAllOk descIndexAccesses = true ∧ descIndexAccesses.map (·.i) = (List.range 64).map Int.ofNat ∧ angleGrid.length = 109 := by
+  decide
+
+/-- **B9, the border test of `compute_descriptors` does NOT keep the samples inside (defect, confirmed with ASan on the
+real code).** In exact rational arithmetic (the doubles of the real code differ by rounding only; the values below are far
+from any rounding boundary): a 40x40 image, interest point `(15, 15)` with `scale = 1` (what `surf.dense(f, 1)` passes) and
+rotation `sin = -20/29`, `cos = 21/29` (`sin² + cos² = 1`). The border test accepts (`border_size = 31/2 = 15 ≤ 15`,
+`15 + 15 < 40`), the grid point `(x, y) = (-10, -10)` is sampled at `p.y = 15 - 410/29 ≈ 0.86`, i.e. row `int(p.y) = 0`, column 14,
+window `int(2*1+.5) = 2`, and `haar_y` reads `integral.at(-1, ·)`: out of bounds. -/
+theorem C10_surf_descriptor_guard_insufficient :
+    descGuard 40 40 15 15 1 = true ∧
+    ((-20 / 29 : Rat) * (-20 / 29) + (21 / 29) * (21 / 29) = 1) ∧
+    descSample 15 15 1 (-20 / 29) (21 / 29) (-10) (-10) = (0, 14) ∧ descWindow 1 = 2 ∧
+    sAllOk (haarAccesses 40 40 (descSample 15 15 1 (-20 / 29) (21 / 29) (-10) (-10)).1
+      (descSample 15 15 1 (-20 / 29) (21 / 29) (-10) (-10)).2 (descWindow 1)) = false := by
+  decide +kernel
+
+end SurfB9
